@@ -127,7 +127,14 @@ def decide(ctx, fn, pname, mode_val, first, scope_kind, rest=None, recursive=(),
         if k == "mcall" and e["m"] in ("all", "any", "for_each", "try_for_each") and e["args"] and e["args"][0].get("k") == "closure":
             return st.event(("rest-loop",))
         return None
-    it = ai.Interp(hooks=hooks, idx=ctx.tc)
+    helpers = {}
+    if rec_result is not None:
+        # private boolean helpers next to the predicate (e.g. one that unwraps a branch state) are entered
+        for g in ctx.tc.fns:
+            if g.body and g.module[:2] == ["proc_gen", "expr"] and (g.ret or "").strip() == "bool" and g.name not in recursive and g is not fn:
+                helpers[g.name] = None if g.name in helpers else g
+        helpers = {k_: v_ for k_, v_ in helpers.items() if v_ is not None}
+    it = ai.Interp(hooks=hooks, idx=ctx.tc, inline=helpers)
     it.for_value = ("E", rest, (ai.FREE,)) if rest else ai.FREE
     env = {"self": ai.FREE, "scopes": ai.FREE, "w": ai.FREE, pname: mode_val}
     for n_ in fn.param_names():
@@ -194,8 +201,11 @@ def agree_rule(ctx):
                 def br(tag, st_):
                     return ("T", (("E", "NotInPath", ()) if st_ == "no path" else ("E", "InPath", (tag,)), F_))
                 first = ("E", "Condition", (F_, br("$BR:t", tb), br("$BR:f", fb)))
-                acc = accepts(decide(ctx, pf, pname, modes[mode], first, None, recursive=REC, rec_result={"$BR:t": tb == "legal", "$BR:f": fb == "legal"}))
+                outs_ = decide(ctx, pf, pname, modes[mode], first, None, recursive=REC, rec_result={"$BR:t": tb == "legal", "$BR:f": fb == "legal"})
+                acc = accepts(outs_)
                 want = tb == "legal" or fb == "legal"
+                if outs_ is not None and not want and any((o.value == ai.FREE or o.value == ai.UNK or o.tainted) and o.value is not False for o in outs_):
+                    acc = None   # an answer that is not a constant: some part of the decision was not followed
                 if acc is None:
                     und = True
                 elif acc != want:
